@@ -82,7 +82,27 @@ var c17lookups = []c17lookup{
 
 // isset of a variable that an inner scope re-declared with no value (nil literal, value half of a failed two-value lookup,
 // assignment of nil): the innermost declaration is the one that counts, whatever the same name means further out
+// a non-nil pointer is a non-nil value, whatever it points to (a nil slice, a nil map, a nil pointer, a nil interface)
+type c17ptrs struct {
+	PSl   *[]string
+	PMap  *map[string]int
+	PP    **c17ptrs
+	PIf   *interface{}
+	PNil  *[]string
+	PPSet **c17ptrs
+}
+
+func c17pointers() c17ptrs {
+	var sl []string
+	var m map[string]int
+	var inner *c17ptrs
+	var ifc interface{}
+	set := &c17ptrs{}
+	return c17ptrs{PSl: &sl, PMap: &m, PP: &inner, PIf: &ifc, PPSet: &set}
+}
+
 var c17shadow = []struct{ src, want string }{
+	{`[{{ isset(pn.PSl) }}{{ isset(pn.PMap) }}{{ isset(pn.PP) }}{{ isset(pn.PIf) }}{{ isset(pn.PPSet) }}|{{ isset(pn.PNil) }}|{{ isset(pn.PSl, pn.PMap) }}{{ pn.PMap | isset(pn.PSl) }}{{ pn.PP | isset }}]`, "[truetruetruetruetrue|false|truetruetrue]"},
 	// elements of maps with interface / array keys that hold typed nils are nil like everywhere else
 	{`[{{ isset(r.MapAnyAny["nilp"]) }}{{ isset(r.MapAnyAny["nilm"]) }}{{ isset(r.MapAnyAny["nils"]) }}{{ isset(r.MapAnyAny["nil"]) }}{{ isset(r.MapAnyAny["absent"]) }}|{{ isset(r.MapAnyAny["v"]) }}{{ isset(r.MapAnyAny["zero"]) }}]`, "[falsefalsefalsefalsefalse|truetrue]"},
 	{`[{{ isset(r.MapAnyAny.nilp) }}{{ isset(r.MapAnyAny.v) }}{{ isset(r.MapArrAny[karr]) }}{{ isset(r.MapArrAny[karr2]) }}{{ isset(r.MapAnyAny["nilp"].Name) }}]`, "[falsetruefalsetruefalse]"},
@@ -104,7 +124,9 @@ func c17run(c *fw.Ctx, idx int) {
 		root := g.Root()
 		c.Begin(idx, map[string]interface{}{"directed": "isset of names re-declared without a value / typed nil elements", "template": d.src})
 		defer c.End()
-		out := jx.Run(map[string]string{"/t.jet": d.src}, "/t.jet", c06vars(root), root, jx.NoEscape)
+		dv := c06vars(root)
+		dv.Set("pn", c17pointers())
+		out := jx.Run(map[string]string{"/t.jet": d.src}, "/t.jet", dv, root, jx.NoEscape)
 		c.Count("directed_shadowing_cases", 1)
 		if out.Failed() || out.Out != d.want {
 			c.Violation(fmt.Sprintf("c17:directed-isset:%d", idx), "", fmt.Sprintf("%s rendered %s, want %q", d.src, out, d.want))
